@@ -2,13 +2,14 @@
    meanwhile: strict priority classes, per-sender FIFO inside a class. *)
 From Ergo Require Import Common.Base.
 
-(* how an item was sent: 0 Normal priority, 1 High, 2 Max, 3 exit signal, 4 down notification *)
+(* how an item was sent: 0 Normal priority, 1 High, 2 Max, 3 exit signal, 4 down notification,
+   5 log message (the receiver is registered as a logger: Log queue) *)
 Record item := mk_item { it_sender : nat; it_kind : nat; it_seq : nat }.
 
 (* node/core.go priority switch: Max -> Urgent, High -> System, else Main; sendExitMessage ->
    Urgent; down messages are sent with MessagePriorityHigh -> System *)
 Definition class_of (kind : nat) : nat :=
-  match kind with 2 | 3 => 0 | 1 | 4 => 1 | _ => 2 end.
+  match kind with 2 | 3 => 0 | 1 | 4 => 1 | 5 => 3 | _ => 2 end.
 Definition cls (x : item) : nat := class_of (it_kind x).
 
 Definition item_eqb (a b : item) : bool :=
@@ -23,7 +24,8 @@ Fixpoint items_eqb (a b : list item) : bool :=
 Definition of_class (c : nat) (l : list item) : list item := filter (fun x => Nat.eqb (cls x) c) l.
 (* what the dequeue scan (Sched.ScanProofs.next_message, repeated) produces from what one
    sender enqueued in order [sent]: class 0 first, then 1, then 2, each in sending order *)
-Definition expected (sent : list item) : list item := of_class 0 sent ++ of_class 1 sent ++ of_class 2 sent.
+Definition expected (sent : list item) : list item :=
+  of_class 0 sent ++ of_class 1 sent ++ of_class 2 sent ++ of_class 3 sent.
 
 Fixpoint classes_sorted (l : list item) : bool :=
   match l with
@@ -31,8 +33,8 @@ Fixpoint classes_sorted (l : list item) : bool :=
   | x :: tl => match tl with [] => true | y :: _ => Nat.leb (cls x) (cls y) && classes_sorted tl end
   end.
 
-Lemma cls_le2 x : cls x <= 2.
-Proof. unfold cls, class_of. destruct (it_kind x) as [|[|[|[|[|?]]]]]; lia. Qed.
+Lemma cls_le3 x : cls x <= 3.
+Proof. unfold cls, class_of. destruct (it_kind x) as [|[|[|[|[|[|?]]]]]]; lia. Qed.
 
 Lemma classes_sorted_app a b :
   classes_sorted a = true -> classes_sorted b = true ->
@@ -64,9 +66,12 @@ Proof. unfold of_class. intros H. apply filter_In in H. destruct H as [_ H]. app
 Theorem expected_sorted sent : classes_sorted (expected sent) = true.
 Proof.
   unfold expected. apply classes_sorted_app; [apply of_class_sorted| |].
-  - apply classes_sorted_app; [apply of_class_sorted|apply of_class_sorted|].
-    intros x y Hx Hy. apply In_of_class in Hx, Hy. lia.
-  - intros x y Hx Hy. apply In_of_class in Hx. apply in_app_or in Hy. destruct Hy as [Hy|Hy]; apply In_of_class in Hy; lia.
+  - apply classes_sorted_app; [apply of_class_sorted| |].
+    + apply classes_sorted_app; [apply of_class_sorted|apply of_class_sorted|].
+      intros x y Hx Hy. apply In_of_class in Hx, Hy. lia.
+    + intros x y Hx Hy. apply In_of_class in Hx. apply in_app_or in Hy. destruct Hy as [Hy|Hy]; apply In_of_class in Hy; lia.
+  - intros x y Hx Hy. apply In_of_class in Hx. apply in_app_or in Hy. destruct Hy as [Hy|Hy]; [apply In_of_class in Hy; lia|].
+    apply in_app_or in Hy. destruct Hy as [Hy|Hy]; apply In_of_class in Hy; lia.
 Qed.
 
 Lemma filter_filter_class c c' l :
@@ -81,36 +86,61 @@ Proof.
     rewrite E1. reflexivity.
 Qed.
 
-Theorem expected_stable c sent : c <= 2 -> of_class c (expected sent) = of_class c sent.
+Theorem expected_stable c sent : c <= 3 -> of_class c (expected sent) = of_class c sent.
 Proof.
   intros Hc. unfold expected. unfold of_class at 1. rewrite !filter_app. fold (of_class c (of_class 0 sent)).
-  fold (of_class c (of_class 1 sent)). fold (of_class c (of_class 2 sent)). rewrite !filter_filter_class.
-  destruct c as [|[|[|c]]]; cbn [Nat.eqb]; rewrite ?app_nil_r; try reflexivity; lia.
+  fold (of_class c (of_class 1 sent)). fold (of_class c (of_class 2 sent)). fold (of_class c (of_class 3 sent)).
+  rewrite !filter_filter_class.
+  destruct c as [|[|[|[|c]]]]; cbn [Nat.eqb]; rewrite ?app_nil_r; try reflexivity; lia.
 Qed.
 
 (* ---- cases ---------------------------------------------------------------------------- *)
-Record pcase := mk_pcase { pc_sent : list (list item); pc_handled : list item }.
+(* pc_sent: enqueued (per sender, in order) while the receiver was parked in a message callback;
+   pc_sent2: enqueued while it was parked a second time, inside the callback of the FIRST log
+   message of phase 1 (empty if phase 1 had no log message) *)
+Record pcase := mk_pcase { pc_sent : list (list item); pc_sent2 : list (list item); pc_handled : list item }.
+
+Definition is_log (x : item) : bool := Nat.eqb (cls x) 3.
+(* what repeated scans produce for one sender per phase: everything of phase 1 above the Log class,
+   the first log message, then - the scan restarts at the Urgent queue after EVERY message, log
+   messages included - phase 2 merged with the remaining log messages, by class *)
+Definition expected2 (s1 s2 : list item) : list item :=
+  let hi := filter (fun x => negb (is_log x)) s1 in
+  match filter is_log s1 with
+  | [] => expected s1
+  | l1 :: lrest => expected hi ++ [l1] ++ expected (s2 ++ lrest)
+  end.
 
 Definition from_sender (s : nat) (l : list item) : list item := filter (fun x => Nat.eqb (it_sender x) s) l.
 
 (* single sender: the implementation's order must be exactly the expected one *)
 Definition corr_parked (c : pcase) : bool :=
-  match pc_sent c with
-  | [one] => items_eqb (pc_handled c) (expected one)
-  | _ => true
+  match pc_sent c, pc_sent2 c with
+  | [one], [] => items_eqb (pc_handled c) (expected2 one [])
+  | [one], [two] => items_eqb (pc_handled c) (expected2 one two)
+  | _, _ => true
   end.
 
 (* any number of senders: classes in strict order, and for every sender and class the handled
    subsequence is exactly what that sender sent in that class, in order (nothing lost, nothing
    duplicated, nothing reordered) *)
+(* position of the first log message in the handled list (phase boundary) *)
+Fixpoint split_at_first_log (l : list item) : list item * list item :=
+  match l with
+  | [] => ([], [])
+  | x :: tl => if is_log x then ([x], tl) else let '(a, b) := split_at_first_log tl in (x :: a, b)
+  end.
+
 Definition spec_parked (c : pcase) : bool :=
-  classes_sorted (pc_handled c)
-  && Nat.eqb (length (pc_handled c)) (length (concat (pc_sent c)))
+  (* up to and including the first log message, and after it, classes are in strict order *)
+  (let '(a, b) := split_at_first_log (pc_handled c) in classes_sorted a && classes_sorted b)
+  && Nat.eqb (length (pc_handled c)) (length (concat (pc_sent c)) + length (concat (pc_sent2 c)))
+  (* (so a message enqueued while the first log message was being handled is taken before the next log message) *)
   && forallb (fun sent =>
         match sent with
         | [] => true
         | x :: _ =>
-            forallb (fun k => items_eqb (of_class k (from_sender (it_sender x) (pc_handled c))) (of_class k sent)) [0; 1; 2]
-        end) (pc_sent c).
+            forallb (fun k => items_eqb (of_class k (from_sender (it_sender x) (pc_handled c))) (of_class k sent)) [0; 1; 2; 3]
+        end) (pc_sent c ++ pc_sent2 c).
 Definition premise_parked (c : pcase) : bool :=
   Nat.ltb 1 (length (nodup Nat.eq_dec (map cls (pc_handled c)))).
